@@ -514,6 +514,10 @@ func c13run(args []string) error {
 					case "infinity":
 						q.X.SetInt64(0)
 						q.Y.SetInt64(0)
+					case "xplusp": // the residue of a curve point's x written as a number outside [0, p): not a coordinate
+						q.X.Add(q.X, p.Curve.Params().P)
+					case "yminusp":
+						q.Y.Sub(q.Y, p.Curve.Params().P)
 					}
 					return q
 				}
